@@ -27,7 +27,9 @@ RULE = ("model tie: extracted Coq model of Hasher with align=true and of the ent
         "(fresh, progress 0|1|2 in turn) AND through `create --align` (--prog 0|1|2 / --quiet in turn, --piece-length spelled as "
         "the exponent 21..25 or in bytes in turn), every third also through assemble() again on the unchanged tree, every third "
         "through assemble() again after the payload changed; all templates in the quick tier, 40 trees (templates, then random "
-        "sizes k MiB + r) in the thorough tier; same judge.  Non-trivial = distinct and hits a boundary class.")
+        "sizes k MiB + r) in the thorough tier; same judge.  The generated trees (trees.gen_tree) carry decomposed (NFD) Unicode names, "
+        "names with the glob metacharacters * ? [ ] and mixed-case siblings (classes 'name: ...').  "
+        "Non-trivial = distinct and hits a boundary class.")
 TRUSTED_BASE = c01.TRUSTED_BASE
 ASSUMPTIONS = c01.ASSUMPTIONS
 
